@@ -24,8 +24,11 @@ RULE = ("Hypothesis-generated programs of scenario-API calls (<= 14 operations: 
         "(destination attribute not an input) or (shifted/weak into non-trigger without initial data) or (weak "
         "and the closest common group is the root); afterwards run() must show values exactly on the accepted "
         "slots, reject/accept cycles according to the accepted flows only, and entity_graph edges only from "
-        "accepted pairs. non-trivial = a connect call with >= 1 invalid and >= 1 valid pair, or simulators in "
-        "different groups; distinct = distinct programs")
+        "accepted pairs. Behavioural group scoping: a weak loop in one group and an observer in the same / nested / "
+        "sibling / cousin / other-depth group, all observer kinds, several schedules; the history monitor with the "
+        "reference group semantics decides whose sub-steps the observer may follow. non-trivial = a connect call "
+        "with >= 1 invalid and >= 1 valid pair, or simulators in different groups, or a scoping run with sub-steps; "
+        "distinct = distinct programs / scenarios")
 ASSUMPTIONS = [
     "attribute classification of the generated descriptions is taken from C12's reference solver",
     "connect calls that combine async_requests=True with an invalid pair are not generated (the statement is "
@@ -201,9 +204,12 @@ class Interp:
             self.fails.append(Failure("C11.entity_graph", "C11.entity_graph",
                                       f"entity_graph has edges {sorted(map(sorted, got_edges - want_edges))} that no accepted pair created"))
         unres, _ = c06.unresolved_cycles(sorted(groups), self.edges, groups)
+        from mvf.harness import HarnessAbort
         try:
-            self.w.run(until=until, print_progress=False)
+            simple_sim.guarded_run(self.w, until=until, print_progress=False)
             outcome, msg = "ran", ""
+        except HarnessAbort as e:
+            outcome, msg = "error", f"run() ended in {e}"      # completion is C05's business
         except ScenarioError as e:
             outcome, msg = "rejected", str(e)
         except AssertionError as e:
@@ -262,7 +268,7 @@ def placement(p, q):
     return "sibling_subgroups"
 
 
-def check_case(case, acc):
+def check_case_api(case, acc):
     it = Interp()
     try:
         for o in case["ops"]:
@@ -276,6 +282,10 @@ def check_case(case, acc):
     for f in it.fails:
         f["case"] = case
     return acc.triage(it.fails)
+
+
+def check_case(case, acc):
+    return check_case_dispatch(case, acc)
 
 
 def table_programs():
@@ -332,6 +342,67 @@ def placement_ops(pa, pb, desc):
     return ops
 
 
+# ---------------------------------------------------------------- behavioural group scoping
+# "Distinct groups, including sibling groups, are distinct: sub-time is shared only inside the common
+# enclosing group."  A same-time (weak) loop runs in one group; an observer connected plainly sits in the same
+# group, a nested group, a sibling, a cousin or a group of another depth.  The history monitor (reference group
+# semantics, DESIGN 2.3) decides which sub-steps the observer may see: inside the common enclosing group it
+# follows the sub-steps, outside it is served once, after the loop's time step is over.
+
+def scoping_scenarios():
+    from mvf.gen import _sim, _c
+    placements = {
+        "same_group": [["A", "B", "O"]],
+        "nested_observer": [["A", "B", ["O"]]],
+        "root_observer": [["A", "B"], "O"],
+        "sibling": [["A", "B"], ["O"]],
+        "cousin": [[["A", "B"]], [["O"]]],
+        "uneven": [["A", "B"], [["O"]]],
+        "uneven2": [[["A", "B"]], ["O"]],
+        "sibling_subgroups": [[["A", "B"], ["O"]]],
+        "loop_nested_observer_outer": [[["A", "B"], "O"]],
+    }
+    for name, tree in placements.items():
+        for obs_type, da in (("hybrid", "ti"), ("hybrid", "mi"), ("event-based", "ti")):
+            for budget in (1, 3):
+                sims = [_sim("A", "event-based", steps=[1], emit=[1], budget=budget),
+                        _sim("B", "event-based", emit=[1], budget=budget),
+                        _sim("O", obs_type, steps=[1] if obs_type == "hybrid" else [0], emit=[1])]
+                conns = [_c("A", "eo", "B", "ti"), _c("B", "eo", "A", "ti", weak=True), _c("A", "eo", "O", da)]
+                yield name, {"tree": tree, "sims": sims, "conns": conns, "initial_events": {"A": 0}, "until": 3,
+                             "world": {"cache": True}, "run": {"lazy_stepping": True}}
+
+
+def check_scoping(case, acc):
+    from mvf import harness, monitor, schedprops
+    res = harness.run_case(case)
+    fails = []
+    mon = monitor.Monitor(case["scenario"])
+    viol = mon.run(res)
+    if res.outcome == "exception":
+        fails.append(Failure("C11.group_scoping", f"C11.group_scoping|{schedprops.exc_class(res)}",
+                             f"run() raised {res.exc_type}: {res.exc_msg}"))
+    elif res.outcome != "returned":
+        fails.append(Failure("C11.group_scoping", f"C11.group_scoping|{res.outcome}", f"run() ended in {res.outcome}"))
+    for v in viol:
+        if v["rule"].split(".")[0] in ("C01", "C02"):
+            fails.append(Failure("C11.group_scoping", f"C11.group_scoping|{v['rule']}",
+                                 f"[{case.get('placement')}] {v['msg']} (who waits for whose sub-steps is decided by "
+                                 f"the group tree {case['scenario']['tree']})"))
+            break
+    substeps = sum(1 for ls in mon.begun.values() for L in ls if any(L[1:]))
+    acc.record(case, substeps > 0, ["scoping." + str(case.get("placement")), "substeps" if substeps else "no_substeps"])
+    for f in fails:
+        f["case"] = case
+    return acc.triage(fails)
+
+
+def check_case_dispatch(case, acc):
+    if case.get("kind") == "scoping":
+        return check_scoping(case, acc)
+    return check_case_api(case, acc)
+
+
 def shards(tier, seed):
     n = core.NPROC
     return [dict(prop=PROP, tier=tier, seed=seed, shard=i, nshards=n) for i in range(n)]
@@ -346,6 +417,18 @@ def shard(prop, tier, seed, shard, nshards):
         for f in check_case(case, acc):
             if len(acc.failures) < 20:
                 acc.failures.append(f)
+
+    # behavioural group scoping: placements x observer kinds x loop lengths x schedules
+    j = 0
+    for name, scn in scoping_scenarios():
+        for sched in ({}, {"policy": "lifo"}, {"policy": "starve", "arg": "O"}, {"picks": [1, 2, 0, 2, 1, 1, 0, 2]}):
+            j += 1
+            if j % nshards != shard or acc.out_of_time():
+                continue
+            case = {"kind": "scoping", "placement": name, "scenario": scn, "schedule": sched}
+            for f in check_case(case, acc):
+                if len(acc.failures) < 20:
+                    acc.failures.append(f)
 
     attr = st.sampled_from(["a", "b", "c", "q"])
     sub = st.lists(st.sampled_from(["a", "b", "c"]), unique=True, max_size=3).map(sorted)
